@@ -2795,7 +2795,14 @@ class StateEngine(object):
                     current_id = branch_info["ID"]
                     index = branch_info["Index"]
 
-                    all_branch_results = self.branch_metadata[execution_arn].results
+                    """
+                    This delegate runs from a timer, so the Branch Metadata of
+                    the execution, which was present (or lazily re-created after
+                    a restart) when the event was dispatched, may have been
+                    tidied up again in the meantime.
+                    """
+                    metadata = self.branch_metadata.get(execution_arn)
+                    all_branch_results = metadata.results if metadata else {}
                     if current_id in all_branch_results:
                         branch_results = all_branch_results[current_id]
                         branch_results["state"][index] = "Parallel"
@@ -3040,7 +3047,9 @@ class StateEngine(object):
                             current_id = branch_info["ID"]
                             index = branch_info["Index"]
 
-                            all_branch_results = self.branch_metadata[execution_arn].results
+                            # See the comment in asl_state_Parallel_delegate
+                            metadata = self.branch_metadata.get(execution_arn)
+                            all_branch_results = metadata.results if metadata else {}
                             if current_id in all_branch_results:
                                 branch_results = all_branch_results[current_id]
                                 branch_results["state"][index] = "Map"
